@@ -66,9 +66,9 @@ def legD(ctx, q):
     ctx.extra["exhaustive"] = complete
     # the invariants bite: broken designs must violate them
     muts = [("Net_m_l1hit.cfg", "Coherent"), ("Net_m_union.cfg", "Wire"), ("Net_m_genreset.cfg", "GenUnique"),
-            ("Net_m_emptykeep.cfg", "Coherent")]
+            ("Net_m_emptykeep.cfg", "Coherent"), ("Net_m_l1stamp_evict.cfg", "NoStale")]
     if not q:
-        muts += [("Net_m_genreset_coh.cfg", "Coherent"), ("Net_m_restart.cfg", "Coherent")]
+        muts += [("Net_m_genreset_coh.cfg", "Coherent"), ("Net_m_restart.cfg", "Coherent"), ("Net_m_l1stamp_2s.cfg", "NoStale")]
     for cfg, inv in muts:
         ctx.design("Cache/Net.tla", cfg, workers=4, timeout=300, heap="2g", deadlock_off=True, expect_violation=inv, extra=["-noGenerateSpecTE"],
                    note="self-test: broken design must violate " + inv)
@@ -82,8 +82,11 @@ def legD(ctx, q):
 def legB(ctx, q, netcache):
     exe = ctx.harness("netcache_drv", ["netcache/netcache_drv.cpp"])
     jobs = []   # (tag, args, env, kind)
-    def seq(tag, *args, shard=None):
-        jobs.append((tag, [str(a) for a in args], {"VERIF_SHARD": shard} if shard else {}, "seq"))
+    def seq(tag, *args, shard=None, seed=None):
+        env = {"VERIF_SHARD": shard} if shard else {}
+        if seed is not None:
+            env["VERIF_SEED"] = str(seed)
+        jobs.append((tag, [str(a) for a in args], env, "seq"))
     # exh mode bits: 1 deadlines 0/1 + tick, 2 no rise(key), 4 value kinds {fresh full value, EMPTY value, proper
     # prefix of the previous value}.  Every client reuses one output string for all its fetches.
     if q:
@@ -101,6 +104,11 @@ def legB(ctx, q, netcache):
             seq("rand-%d" % i, "rand", ns, nc, mask, lim, 4, 3, 80, 10)
         seq("wire-2s", "wire", 2, 400, 65536)
         seq("wire-1s", "wire", 1, 200, 4096)
+        # generation coincidences: fresh servers / L1s per execution, L1 limits 0..3 with key cycling, aged servers,
+        # another client re-stores each key when the server's next generation equals the stamp an L1 holds
+        seq("coin-1s", "coin", 1, 2, 1, 4, 80)
+        seq("coin-2s", "coin", 2, 3, 3, 4, 100)
+        seq("coin-3s", "coin", 3, 2, 3, 6, 60)
     else:
         for s in range(4):
             seq("exh-l1l1-%d" % s, "exh", 1, 2, 3, 1, 1, 5, 0, shard="%d/4" % s)
@@ -128,6 +136,10 @@ def legB(ctx, q, netcache):
         seq("wire-2s", "wire", 2, 3000, 65536)
         seq("wire-3s", "wire", 3, 2000, 65536)
         seq("wire-1s", "wire", 1, 1000, 65536)
+        for i, (ns, nc, mask, nk) in enumerate([(1, 2, 1, 4), (1, 2, 3, 3), (1, 3, 7, 5), (2, 2, 1, 4), (2, 3, 3, 4), (2, 3, 7, 6),
+                                                (3, 2, 3, 6), (3, 3, 5, 6)]):
+            for j in range(3):      # a process can create only ~1000 client objects (one pthread key each): several runs, different seeds
+                seq("coin-%d-%d" % (i, j), "coin", ns, nc, mask, nk, 200, seed=ctx.seed * 16 + j + 1)
     thr = []
     if q:
         thr = [("thr-1s", ["thr", 1, 3, 3, 2, 1, 25, 6, 1]), ("thr-2s", ["thr", 2, 3, 5, 2, 1, 25, 6, 2])]
@@ -274,8 +286,17 @@ def selftest(ctx, netcache, exe):
     for cfg in ("NetTrace.cfg", "NetTraceP.cfg"):
         rej, _ = netcache.validate(ctx, "Cache/NetTrace.tla", cfg, f, "self-" + cfg, replays=os.path.join(ctx.work, "selfrej"), count=False)
         got = sorted(x["line"] for x in rej)
-        res[cfg] = got
-        if got != [3, len(a) + 6]:
-            ctx.undecided.append("binding self-test (%s): expected rejections at lines %s (corrupted field, event after the dropped one), got %s"
-                                 % (cfg, [3, len(a) + 6], got))
-    ctx.extra["binding_selftest"] = "corrupted field and dropped event rejected, pristine copy accepted: %s" % res
+        ina = [x for x in got if x <= len(a)]
+        inb = [x for x in got if len(a) < x <= len(a) + len(b)]
+        inc = [x for x in got if x > len(a) + len(b)]
+        if inc:
+            # this layer does not even accept the unmodified execution (the main legs report that, as violation or
+            # as drift): mutating it proves nothing, and it must not make the run undecided
+            res[cfg] = "skipped: the unmodified script execution is rejected by this layer at line %d of it" % (inc[0] - len(a) - len(b))
+            continue
+        res[cfg] = "corrupted field rejected at line %s, dropped event noticed at line %s of its copy, pristine copy accepted" % (
+            ina[:1], [x - len(a) for x in inb[:1]])
+        if not ina or not inb:
+            ctx.undecided.append("binding self-test (%s): a mutated copy of an accepted execution was accepted too "
+                                 "(corrupted field rejected: %s, dropped event rejected: %s)" % (cfg, bool(ina), bool(inb)))
+    ctx.extra["binding_selftest"] = res
